@@ -368,6 +368,16 @@ def node_events(n, stypes):
                         sf = _state_field(y["e"], stypes)
                         if sf:
                             acc.add(sf)
+        elif k == "decl":
+            # numbering: the old value of F++ kept in a local (`size_t const pos = st.m_pos++;`) and handed on later
+            for v in x.get("vars", []):
+                if v.get("init") is None:
+                    continue
+                for y in walk_nolambda(v["init"]):
+                    if y.get("k") == "un" and y.get("op") == "++" and y.get("post"):
+                        sf = _state_field(y["e"], stypes)
+                        if sf:
+                            acc.add(sf)
         elif k == "asg" and x.get("op") == "=":
             sf = _state_field(x["lhs"], stypes)
             if sf:
